@@ -525,7 +525,30 @@ class Fn:
                     callee = self.prog.functions[sd['fn']]
                     if callee.retk in ('bool', 'ptr') and always_fails(self.prog, callee):
                         return 0
+                # a condition computed as a value (`ok = a && b && c`) whose operands were decided earlier on this path
+                if v is None and _cur_facts[0] is not None and isinstance(sd, dict) and (sd.get('k') in ('bin', 'un') or sd.get('tk') == 'bool'):
+                    v = _truth(d, 0)
             return v
+
+        def _truth(d, depth):
+            if depth > 8:
+                return None
+            a, pol = norm_cond(self.prog, d)
+            sa = strip(a)
+            fs = _cur_facts[0]
+            k = dstr(a)
+            if (k, True) in fs:
+                return 1 if pol else 0
+            if (k, False) in fs:
+                return 0 if pol else 1
+            if isinstance(sa, dict) and sa.get('k') == 'bin' and sa.get('op') in ('&&', '||'):
+                l, r = _truth(sa['l'], depth + 1), _truth(sa['r'], depth + 1)
+                if sa['op'] == '&&':
+                    res = 0 if (l == 0 or r == 0) else (1 if (l == 1 and r == 1) else None)
+                else:
+                    res = 1 if (l == 1 or r == 1) else (0 if (l == 0 and r == 0) else None)
+                return None if res is None else (res if pol else 1 - res)
+            return None
 
         _cur_facts = [None]
 
